@@ -105,6 +105,9 @@ func famReg() {
 		for n := range cc.VariableKeyMap {
 			regd = append(regd, n)
 		}
+		if undef {
+			regd = append(regd, "u1", "u2") // not registered: read by name through the undefined key
+		}
 		sort.Strings(regd)
 		bs := bindingsFor(r)
 		vals := map[string]interface{}{}
@@ -132,7 +135,7 @@ func famReg() {
 					maxK = int(k)
 				}
 			}
-			if minK >= 0 && maxK < 4096 {
+			if minK >= 0 && maxK < 4096 && !undef {
 				fetchers = append(fetchers, struct {
 					name string
 					f    eval.VariableFetcher
